@@ -528,7 +528,12 @@ pub fn gen_plan(rng: &mut Rng) -> RunPlan {
             },
             9..=14 => ShaderRef::Gen {
                 seed: rng.below(48),
-                scale: rng.range(1, 3) as u32,
+                // mostly small; now and then a module with a hundred types and dozens of bindings
+                scale: if rng.chance(150) {
+                    rng.range(6, 12) as u32
+                } else {
+                    rng.range(1, 3) as u32
+                },
             },
             15..=17 => ShaderRef::Deep {
                 shape: rng.below(3) as u8,
